@@ -360,6 +360,8 @@ func init() {
 //	websocket_prepWrite_skel:   events of prepWrite (contains ("test_err_ret","writeErr"): the sticky
 //	    error is what prepWrite returns)
 //	websocket_flushFrame_skel:  [("call","c.write")] -- the data path goes through (*Conn).write
+//	websocket_reader_side_writes: (function, entry point) for every write the default ping/close handlers
+//	    and the reader's own error replies issue -- they run on the reading goroutine
 //	websocket_transport_write_sites: every `<x>.conn.Write(` / `netConn.Write(` in the package as
 //	    (enclosing function, receiver-or-kind)
 func wsMentions(n ast.Node, names ...string) bool {
@@ -588,6 +590,7 @@ func init() {
 		g.pf("(* synchronisation skeletons (gen_skel.go) *)\n")
 		seen := map[string]bool{}
 		var sites []skelEv
+		var handlerCalls []skelEv // (function that runs on the reading goroutine, write entry point it calls)
 		for _, fd := range g.funcDecls() {
 			rn := recvName(fd)
 			full := fd.Name.Name
@@ -633,6 +636,19 @@ func init() {
 				}
 				g.emitSkel("websocket_writeFatal_skel", []skelEv{{"set_if_nil", "writeErr"}}, ok, "writeFatal does not keep the first error")
 				seen[full] = true
+			case "Conn.SetPingHandler", "Conn.SetCloseHandler", "Conn.SetPongHandler", "Conn.handleProtocolError", "Conn.advanceFrame":
+				// which write entry point do the default handlers / the reader's own replies use?  They run
+				// on the READING goroutine, so only the control path (WriteControl) is allowed: the
+				// message-writer path (WriteMessage / NextWriter / WritePreparedMessage) is single-writer.
+				ast.Inspect(fd.Body, func(n ast.Node) bool {
+					if ce, ok := n.(*ast.CallExpr); ok {
+						switch exprStr(ce.Fun) {
+						case "c.WriteControl", "c.WriteMessage", "c.NextWriter", "c.WritePreparedMessage", "c.write", "c.WriteJSON":
+							handlerCalls = append(handlerCalls, skelEv{full, strings.TrimPrefix(exprStr(ce.Fun), "c.")})
+						}
+					}
+					return true
+				})
 			case "messageWriter.flushFrame":
 				calls := 0
 				ast.Inspect(fd.Body, func(n ast.Node) bool {
@@ -650,6 +666,7 @@ func init() {
 				g.emitSkel("websocket_"+strings.Replace(strings.TrimPrefix(n, "Conn."), "messageWriter.", "", 1)+"_skel", nil, false, "function not found")
 			}
 		}
+		g.emitSkel("websocket_reader_side_writes", handlerCalls, true, "")
 		g.emitSkel("websocket_transport_write_sites", sites, true, "")
 		g.pf("\n")
 	})
